@@ -113,7 +113,13 @@ type Store struct {
 	pending []*pendingJob
 	Limit     uint // limit knob communicated to overflow hooks (0 = 100)
 	hooks     *hookSeq
+	// InitialInputs: SnapshotInputs() as of construction / the last schema swap
+	// (only kept when KeepInitialInputs was set before NewStore)
+	InitialInputs string
 }
+
+// KeepInitialInputs makes NewStore record SnapshotInputs (C04/C05 only: it costs a deep dump).
+var KeepInitialInputs bool
 
 func NewStore(w *world.World) *Store {
 	s := &Store{World: w}
@@ -159,6 +165,9 @@ func NewStore(w *world.World) *Store {
 			}
 			return []lang.CodeLens{{Range: hcl.Range{Filename: file, Start: hcl.InitialPos, End: hcl.InitialPos}, Command: lang.Command{Title: fmt.Sprintf("lens %d", i), ID: "x"}}}, nil
 		})
+	}
+	if KeepInitialInputs {
+		s.InitialInputs = s.SnapshotInputs()
 	}
 	return s
 }
@@ -395,6 +404,9 @@ func (s *Store) SwapSchema(path int) bool {
 	p.Epoch++
 	p.publish()
 	s.Stats.fire("schema_swap")
+	if s.InitialInputs != "" {
+		s.InitialInputs = s.SnapshotInputs()
+	}
 	return true
 }
 
